@@ -122,6 +122,7 @@ type BConn struct {
 	Authed    bool
 	ReadOnly  bool
 	Asking    bool
+	Delivered int      // replies whose last byte has been handed to the proxy's socket
 	PreData   []string // handshake commands seen before the first data command
 	SawData   bool
 	BadOrder  string
@@ -130,6 +131,7 @@ type BConn struct {
 type outChunk struct {
 	data []byte
 	hold int
+	last bool // last chunk of a reply
 }
 
 type Client struct {
@@ -528,6 +530,9 @@ func (w *World) wait() (fd int, mask uint32, n int, stop bool) {
 			bc := w.BConns[ev.idx]
 			if len(bc.Sock.Rx) == 0 && bc.headReady(w) {
 				bc.Sock.Rx = append(bc.Sock.Rx, bc.outbox[0].data...)
+				if bc.outbox[0].last {
+					bc.Delivered++
+				}
 				bc.outbox = bc.outbox[1:]
 			}
 			return bc.Sock.Fd, vsys.ReadyMask(bc.Sock.Fd), 1, false
@@ -638,18 +643,18 @@ func (w *World) feed(bc *BConn, b []byte) {
 		w.Cmds = append(w.Cmds, rec)
 		if hold < 0 {
 			// never answered; later replies on this connection queue behind it (a stalled server)
-			bc.outbox = append(bc.outbox, outChunk{nil, -1})
+			bc.outbox = append(bc.outbox, outChunk{nil, -1, true})
 			continue
 		}
 		cuts := w.Sc.ReplyCuts
 		prev := 0
 		for _, c := range cuts {
 			if c > prev && c < len(reply) {
-				bc.outbox = append(bc.outbox, outChunk{reply[prev:c], hold})
+				bc.outbox = append(bc.outbox, outChunk{reply[prev:c], hold, false})
 				prev = c
 			}
 		}
-		bc.outbox = append(bc.outbox, outChunk{reply[prev:], hold})
+		bc.outbox = append(bc.outbox, outChunk{reply[prev:], hold, true})
 	}
 }
 
@@ -859,6 +864,11 @@ func (w *World) Fingerprint() string {
 	}
 	fmt.Fprintf(&sb, "p=%v l=%v h=%v", w.Panic != nil, w.Livelock, w.HorizonHit)
 	return sb.String()
+}
+
+// ReadByProxy: the reply to the i-th command on this connection has been completely read by the proxy.
+func (bc *BConn) ReadByProxy(i int) bool {
+	return bc.Delivered > i && len(bc.Sock.Rx) == 0
 }
 
 // DataCmds returns the data commands (no handshake / probe) a node address received, in order.
